@@ -5,7 +5,11 @@ usage: run_seeds.py [--all-checks] [seed ...]      (default: each seed against i
 Results: seeded/RESULTS.json (and 'detected_by' in each meta.json when run from /verif)."""
 import json, os, subprocess, sys, time
 VERIF = os.path.dirname(os.path.dirname(os.path.abspath(__file__)))
-REPO = os.environ.get("VERIF_REPO") or os.environ.get("VP_RUN_REPO") or "/repo"
+REPO = os.environ.get("VERIF_REPO") or os.environ.get("VP_RUN_REPO") or "/tmp/repo_scratch"
+if os.path.realpath(REPO) == "/repo":
+    sys.exit("refusing to apply seeded changes to /repo itself: point VERIF_REPO at a scratch worktree (tools/mkwt.sh <dir>)")
+if not os.path.isdir(REPO):
+    subprocess.check_call([os.path.join(VERIF, "tools", "mkwt.sh"), REPO])
 os.environ["VERIF_REPO"] = REPO
 ALL = "--all-checks" in sys.argv
 seeds = [a for a in sys.argv[1:] if not a.startswith("--")] or sorted(os.listdir(os.path.join(VERIF, "seeded")))
